@@ -97,7 +97,7 @@ def build_case(case, ctx):
             return None
         cfg["align"] = "dpd" + str(1 + case["seed"] % 3)
     elif align == "axisangle":
-        if n < 3 or C.axis_angle_terms(reaction) * len(reaction.transitions) ** 0.5 > (400 if ctx["tier"] == "quick" else 3000):
+        if n < 3 or C.axis_angle_cost(reaction) > (3000 if ctx["tier"] == "quick" else 40000):
             return None
         cfg["align"] = "axisangle"
     if case["dynamics"] == "bw":
